@@ -28,6 +28,15 @@ TARGETS = {
                                   [["He+", "e-"], ["He++", "e-", "e-"]], [["He++", "e-"], ["He+"]], [["H", "H"], ["H2"]], [["C", "O"], ["CO"]]],
                     "cooling": ["RC_HeIII", "CIC_HI", "CEC_HeII", "CIC_HeI", "RC_HII", "CIC_He_2S", "CEC_HI", "RC_HeI", "CIC_HeII", "RC_HeII", "CEC_HeI"],
                     "shielding": {"CO": "VB88Table", "H2": "L96Table", "N2": "L13Table"}, "binding": {"#CO": 1150.0, "#H2O": 5700.0}},
+    # dust grains of one group in several charge states under a dust model: the grain-density sum lists them in species order
+    "api+grains": {"grain_model": "hh93", "binding": {"#CO": 1150.0, "#H": 600.0},
+                   "reactions": [[["GRAIN0", "e-"], ["GRAIN-"]], [["GRAIN-", "H+"], ["GRAIN0", "H"]], [["GRAIN+", "e-"], ["GRAIN0"]], [["GRAIN0", "H+"], ["GRAIN+", "H"]],
+                                 [["GRAIN-", "C+"], ["GRAIN0", "C"]], [["GRAIN0", "He+"], ["GRAIN+", "He"]], [["H", "H"], ["H2"]], [["CO"], ["#CO"]], [["H"], ["#H"]],
+                                 [["GRAIN--", "H+"], ["GRAIN-", "H"]], [["GRAIN++", "e-"], ["GRAIN+"]]], "required": ["O"]},
+    # upper-case element spelling (UCLCHEM / KROME style) with its own lists: SI next to S+, HE next to H
+    "api+upper": {"elements": ["E", "H", "HE", "C", "O", "SI", "S", "MG"], "pseudo": ["CR", "PHOTON"],
+                  "reactions": [[["HE+", "E"], ["HE"]], [["SI", "H+"], ["SI+", "H"]], [["S+", "E"], ["S"]], [["S", "H+"], ["S+", "H"]], [["SI", "O"], ["SIO"]],
+                                [["MG", "H+"], ["MG+", "H"]], [["C", "O"], ["CO"]]], "required": ["H2"]},
 }
 EXPLICIT = {"elements": ["e", "E", "H", "D", "He", "C", "N", "O", "Si"], "pseudo": ["CR", "CRP", "PHOTON", "CRPHOT", "Photon", "g", "o", "p", "m"]}
 OTHERS = [
@@ -53,15 +62,15 @@ def work(steps, seed):
 def run(res, info):
     rng = random.Random(res.seed * 7919 + 17)
     model = fw.Model() if info["ok"] else None
-    res.rule = ("five network descriptions (KIDA, KROME, Leeds+hh93 sparse, UCLCHEM+rr07 odeint, an API network with required species), each with its own "
+    res.rule = ("network descriptions (KIDA, KROME, Leeds+hh93 sparse, UCLCHEM+rr07 odeint, API networks with required species / thermal processes and shielding / dust grains in five charge states under hh93), each with its own "
                 "element lists, rendered in fresh interpreters under hash seeds 0/1/12345(+random), twice in one process, and after three other networks "
                 "(custom element lists + user binding energy, a KROME file with directives, an edited UMIST network) were built and rendered; the same "
                 "descriptions relying on the default lists (known finding); histories of up to 4 constructions for the global-table model")
     res.assumptions = ["dates and project version are masked", "exploration, not proof, for everything CPython's hashing decides"]
     seeds = [0, 1, 12345] + ([rng.randrange(1 << 30)] if res.tier == "thorough" else [])
-    names = list(TARGETS) if res.tier == "thorough" else ["kida", "leeds+hh93", "api", "krome+commons", "api+thermal"]
+    names = list(TARGETS) if res.tier == "thorough" else ["kida", "leeds+hh93", "api", "krome+commons", "api+thermal", "api+grains", "api+upper"]
     for name in names:
-        desc = dict(TARGETS[name], **EXPLICIT)
+        desc = dict(EXPLICIT, **TARGETS[name])        # a target may bring its own element lists
         case = {"kind": "c17", "target": name}
         ref = None
         for seed in seeds:
